@@ -276,7 +276,15 @@ def _copy_installed_folder_to_cache(cache_folder, sub_folder=""):
         cache_name = os.path.join(cache_folder, basename)
         install_name = os.path.join(source_folder, basename)
         if not os.path.isdir(install_name) and not os.path.exists(cache_name):
-            shutil.copy(install_name, cache_name)
+            # Copy under a temporary name(one get_hed_versions ignores), then rename atomically,
+            # so that a partially copied file is never visible under its final name.
+            temp_name = os.path.join(cache_folder, f"{basename}.{os.getpid()}.tmp")
+            shutil.copy(install_name, temp_name)
+            try:
+                os.replace(temp_name, cache_name)
+            except OSError:
+                os.remove(temp_name)
+                raise
 
 
 def _check_if_url(hed_xml_or_url):
